@@ -24,7 +24,8 @@ EXPLANATION = (
     'written only by the address printer applied to the request\'s own remote address (or the address '
     'stored there in the same step) and the port only from the announce line; (GRD.2) the printer takes its '
     'dotted-quad branch only for addresses whose words 0-4 are zero, word 5 is 0/0xffff and word 6 is non-zero; (WIRE.1) the version banner '
-    'is the first send of a function that is only ever a libevent callback.')
+    'is the first send of a function that is only ever a libevent callback.'
+    ' Rounds 8-9: (FMT.3) a configured text that fills a request member sent as a word was checked to be one non-empty word; (BND.3) the program\'s own strlcpy keeps its contract; (WMC.5) the tokenizer terminates words in place.')
 ASSUMPTIONS = ['clang 14 CFG', 'stdout is only reachable through the C library stream object or fd 1']
 
 CLIENT_KINDS = set('oUuNIMCkRDd')
